@@ -74,6 +74,10 @@ def run(t, X, fitX=None, y=None, case=None):
         other = dict(case, seed=case["seed"] + 1, lengths=[max(2, v + case["prefit"]) for v in case["lengths"]])
         _, Xo = panel(other)
         sut(lambda: t.fit(Xo, y))
+    if case is not None and case.get("fit_other") and fitX is None:
+        # fitted on a DIFFERENT panel of the same lengths: the closed-form output is a
+        # function of the panel being transformed (and of lengths / fitted intervals only)
+        fitX = panel(dict(case, seed=case["seed"] + 3))[1]
     r = sut(lambda: t.fit(X if fitX is None else fitX, y))
     if isinstance(r, Raised):
         return r
@@ -496,6 +500,28 @@ def o_series_misc(case, ctx):
             exp2 = (arr - arr.min(axis=0)) / np.where(rg == 0, 1, rg)
         if isinstance(r, Raised) or list(r.index) != list(Z.index) or not np.allclose(np.asarray(r, dtype=float).reshape(n, -1), exp2, rtol=1e-9, atol=1e-12):
             discs.append(D("values:adaptor_%s" % nm, repr(r)[:200]))
+            continue
+        # applied to ANOTHER series the adaptor uses the statistics of the series it was fitted
+        # on (column-wise application of the wrapped, fitted tabular transformer), and so does
+        # the inverse afterwards
+        m2 = 5
+        w = np.round(np.linspace(-3.0, 40.0, m2) + 0.5 * np.arange(m2) ** 2, 4)
+        Z2 = gen.build_series(w, int(z.index[-1]) + 1, case["index_kind"])
+        if cols == 2:
+            Z2 = pd.DataFrame({"a": w, "b": w * 0.5 - 7.0}, index=Z2.index)
+        arr2 = np.asarray(Z2, dtype=float).reshape(m2, -1)
+        if nm == "standard":
+            exp3 = (arr2 - arr.mean(axis=0)) / np.where(sd == 0, 1, sd)
+        else:
+            exp3 = (arr2 - arr.min(axis=0)) / np.where(rg == 0, 1, rg)
+        r2 = sut(t.transform, Z2.copy())
+        if isinstance(r2, Raised) or list(r2.index) != list(Z2.index) or not np.allclose(np.asarray(r2, dtype=float).reshape(m2, -1), exp3, rtol=1e-9, atol=1e-12):
+            discs.append(D("values:adaptor_%s_other_series" % nm, "fitted on %d points, applied to %s: got %s expected %s"
+                           % (n, w.tolist(), repr(r2)[:160], exp3.ravel().tolist())))
+            continue
+        b = sut(t.inverse_transform, r.copy())
+        if isinstance(b, Raised) or not np.allclose(np.asarray(b, dtype=float).reshape(n, -1), arr, rtol=1e-9, atol=1e-9):
+            discs.append(D("values:adaptor_%s_inverse_after_other_series" % nm, repr(b)[:200]))
     return discs
 
 
@@ -516,6 +542,7 @@ def panel_cases(draw, unequal=False, max_c=3, min_len=2, extra=None):
         case[k] = draw(s)
     case["prefit"] = draw(st.sampled_from([None, None, -3, -1, 2, 5]))
     case["int_cells"] = draw(st.integers(0, 4)) == 0
+    case["fit_other"] = draw(st.integers(0, 2)) == 0
     return case
 
 
